@@ -61,8 +61,8 @@ ASSUMPTIONS = [
     "the DAC is validated against the credential only when the RoT hash length of the challenge equals the length of the reference hash "
     "(it is unknown what a 'SHA-256 always' part sends for P-384/P-521 keys)",
 ]
-FLOORS = {"kind:rsa": 0.08, "kind:ecc": 0.15, "kind:ele": 0.08, "kind:elev2": 0.05, "multi_rot": 0.25, "beacon_nonzero": 0.2,
-          "uuid_nonzero": 0.2, "dar_checked": 0.4, "leading_zero": 0.03, "kt:secp521r1": 0.04, "kt:rsa4096": 0.005, "rot_id:3": 0.02}
+FLOORS = {"kind:rsa": 0.04, "kind:ecc": 0.075, "kind:ele": 0.04, "kind:elev2": 0.025, "multi_rot": 0.125, "beacon_nonzero": 0.1,
+          "uuid_nonzero": 0.1, "dar_checked": 0.2, "leading_zero": 0.015, "kt:secp521r1": 0.02, "kt:rsa4096": 0.0025, "rot_id:3": 0.01}
 
 KEY_TYPES = ["secp256r1", "secp384r1", "secp521r1", "rsa2048", "rsa4096"]
 _KT_WEIGHTED = ["secp256r1"] * 6 + ["secp384r1"] * 5 + ["secp521r1"] * 3 + ["rsa2048"] * 5 + ["rsa4096"] * 1
@@ -269,7 +269,6 @@ def _lz(desc) -> bool:
 
 
 def run_dc(case, o: Oracle) -> None:
-    from spsdk.crypto.hash import EnumHashAlgorithm  # noqa: F401,PLC0415
     from spsdk.dat.dac_packet import DebugAuthenticationChallenge  # noqa: PLC0415
     from spsdk.dat.dar_packet import DebugAuthenticateResponse  # noqa: PLC0415
     from spsdk.dat.debug_credential import DebugCredentialCertificate, ProtocolVersion  # noqa: PLC0415
@@ -705,6 +704,6 @@ def calibrate(ctx) -> None:
 def parts(ctx):
     _STATE["work"] = ctx.work
     return [
-        HypPart("dc", lambda: _dc_strategy(ctx.tier), run_dc, {"quick": 640, "thorough": 40000}),
-        HypPart("elev2", lambda: _elev2_strategy(ctx.tier), run_elev2, {"quick": 160, "thorough": 8000}),
+        HypPart("dc", lambda: _dc_strategy(ctx.tier), run_dc, {"quick": 400, "thorough": 40000}),
+        HypPart("elev2", lambda: _elev2_strategy(ctx.tier), run_elev2, {"quick": 100, "thorough": 8000}),
     ]
